@@ -29,6 +29,30 @@ claimed = {
  'C20': ("typestate automaton over the heartbeat loop + per-split notification counting + wiring/value-identity checks across manager, telemetry server, coordinator and forwarder",
          "No path of the heartbeat reaches GET /next without a WaitForFlush since the last request, after an initial Flush; the forwarder posts before notifying with exactly one notification per request; WaitForFlush is a plain blocking receive; runtimeDone records trigger the coordinator's Flush; one coordinator instance is shared; manual mode disables timer flushing; start-up failure reaches init-error.",
          "HTTP completion on the wire and AWS's delivery of runtimeDone are outside the code."),
+ 'C08': ("table extraction of the percentile sub-metric emissions (name, mask flag, value) + dominance of the histogram-tag test over statistics/histogram stores + linear-form (n, k) agreement of percentile index expressions + dataflow shape of the rate formulas",
+         "Only the non-numeric clauses: every percentile sub-metric sits under its own flag with its own value and prefix; histogram-tagged timers get a histogram and no statistics exactly under hasHistogramTag; histogram structure (<=, +Inf total, limit 0, truncation, unparsable skipped); the number of values summed equals the rank; count and rates derive from the sampled count and the interval.",
+         "no numerical result (sums, means, medians, deviations, bucket counts) is computed or decided; float arithmetic is out of reach."),
+ 'C10': ("return-expression case analysis of the matcher + gate/edge dominance in the filter loop + provenance of the scratch set + C07 merge rules restricted to the tag stage",
+         "Match results are (match) != invert for exact/prefix/regex and '!', 'regex:', '*' are parsed as documented; drop-metric / drop-tags / drop-host act only after the three gates of the same filter, failing gates skip the filter; every kept metric gets the unique union with the static tags from a fresh scratch set; the stage forwards the rebuilt map only, iff non-empty, and merges colliding series by the C07 rules.",
+         "regexp semantics trusted; the filter relation as a whole is not computed."),
+ 'C11': ("goroutine-ownership closure over the call graph + exactly-once merge counting per closure + post-dominance of the release tests + control-equivalence of gauge updates with map inserts/deletes",
+         "Parked state is touched only on the Run goroutine; each datapoint is merged into exactly one of forward-now (re-keyed) / park (original key); a lookup result releases metrics and events independently through one goroutine each that forwards once; lookups only when nothing is parked for the source; queue gauges move with the map entries; instance data applied whenever an instance was found.",
+         "exactly-once over interleavings relies on Go channel semantics; not decided as a history property."),
+ 'C12': ("abstract interpretation over the nil-ness domain with a six-case split (old entry x new result) for the gauge deltas + loop-shape and value-identity checks of the dispatcher + lock typestate automaton",
+         "Every source of a batch is answered (loop shape), sources are kept until the lookup, the limiter is charged once per call; the entry is always stored, keeps the old instance on a nil result and every answer is passed on; positive/negative gauges change by exactly class(new) - class(old) in all six cases and by -1 of the right gauge per idle eviction; cache writes under the write lock on the Run goroutine, foreign reads under the read lock; idle is tested before TTL.",
+         "clock-dependent behaviour over histories is not decided; provider behaviour trusted."),
+ 'C13': ("wiring/value-identity checks on the informer + type-assertion check against the concrete tombstone type found in client-go's own SSA + predicate/key sibling agreement + guarded-return case analysis of the tag-name function + lock automaton",
+         "Handler and PodByIP indexer sit on the informer that lookups query; updates invalidate with the old object, deletes with the pod or the tombstone in the form client-go delivers; index and invalidation share predicate and key; memo writes/reads are locked and 'nothing' is never memoised; tag name = non-empty 'tag' group, else whole key, only for matching keys; id = namespace/name.",
+         "informer event ordering (client-go) trusted; lookup/invalidation races not decided."),
+ 'C17': ("four-type traversal check + flag->field table extraction across seven backends (if-form and literal-table form) + batch open/close path counting + fresh-storage provenance after hand-over + limit-guard shape + writer/lexer table agreement",
+         "All builders traverse the four types; each disabled-subtype flag guards exactly its timer field in every backend; batches are closed on all exits and a handed-over batch is never written again; CloudWatch calls carry at most 20 data and advance; the relay tests the packet size before every write; relay suffixes, tag introducer, event header lengths (of exactly the strings written) and newline escaping agree with the lexer.",
+         "payload syntax and number formatting are not decided."),
+ 'C18': ("canonicalisation of time expressions (root + multiset of durations, helpers inlined) and comparison with the required forms + name wiring + phi structure of the flusher loop",
+         "Every tick value is Truncate(t - offset, interval) + offset (so tick - offset is a multiple of interval and not in the future); the initial wait is Truncate(now - offset, interval) + interval + offset - now, hence in (0, interval]; interval/offset/aligned are wired unchanged; the flusher reports thisFlush - lastFlush and advances.",
+         "monotonicity and positive-multiple elapsed time under arbitrary clock behaviour are not decided; Truncate semantics per the standard library."),
+ 'C19': ("exactly-once forward counting per stage + WaitGroup/semaphore pairing with defers + ordering automaton on the parked-event release + interface-driven wait-chain check + stage-order dataflow in the server wiring",
+         "Each stage forwards an event once; the backend stage adds len(backends), starts one goroutine per backend on an acquired slot, compensates on cancellation, and Done/slot release are deferred before the send; parked events keep their count until handed on; each WaitForEvents waits its own group then the next stage; static and cloud tags precede forwarding; order parser -> cloud -> tags -> sink; field tables re-checked from C02/C14.",
+         "end-to-end delivery under concurrency is not decided as a history property."),
  'C06': ("purity (effect) analysis of Bucket + per-closure exactly-once store counting on the CFG + value-identity of the dispatch index in SSA",
          "Bucket reads only its arguments and calls only adler32.Checksum; each Split/SplitByTags closure stores the element exactly once on every path under unchanged keys into the same-typed field of maps[Bucket(name,key,count)]; split i is sent to worker i and both are sized by one number. For every batch and shard count by construction of the code shape.",
          "go/ssa; adler32 determinism; the rule recognises the if/else insert idiom used today and fails closed on other shapes."),
